@@ -130,10 +130,10 @@ def real_apply(st, op):
         elif t == 'insert':
             g.insert(op[1], pool[op[2]])
         elif t == 'extend':
-            g.extend([pool[j] for j in op[1]])
+            g.extend(_as_form([pool[j] for j in op[1]], op[2] if len(op) > 2 else 'list'))
         elif t == 'iadd':
             gg = g
-            gg += [pool[j] for j in op[1]]
+            gg += _as_form([pool[j] for j in op[1]], op[2] if len(op) > 2 else 'list')
             if gg is not g:
                 raise AssertionError('+= returned another object')
         elif t == 'set':
@@ -174,6 +174,23 @@ def real_apply(st, op):
             raise AssertionError(op)
     exc, _ = _exc(run)
     return exc
+
+
+def _as_form(rows, form):
+    """The argument forms a list accepts for extend / +=."""
+    if form == 'list':
+        return rows
+    if form == 'tuple':
+        return tuple(rows)
+    if form == 'gen':
+        return (r for r in rows)
+    if form == 'iter':
+        return iter(rows)
+    if form == 'map':
+        return map(lambda r: r, rows)
+    if form == 'reversed':
+        return reversed(list(reversed(rows)))
+    raise AssertionError(form)
 
 
 def rows_identical(a, b):
